@@ -11,7 +11,7 @@ Definition es2 : list (Z * list Z) := [(1, [10]); (2, [20])].
 Definition wk0 := wk_round_robin 0.
 
 (* 279fc1f^ : offsets are positions in the manifest-filtered list *)
-Definition cfg_seed_work := mkcfg SeedByWorkIndex true [LSave; LPrint true] true true.
+Definition cfg_seed_work := mkcfg SeedByWorkIndex true [LSave; LPrint true] true true StripAll.
 Lemma seed_by_work_index_resume_differs_l :
   exists seed es h, NoDup (map fst es) /\
     ~ same_dir (full_run cfg_seed_work seed es wk0 (after_hist cfg_seed_work seed es disk0 h))
@@ -23,7 +23,7 @@ Proof.
 Qed.
 
 (* e001deb^ : print(utt_id, file=manifest) without flush *)
-Definition cfg_no_flush := mkcfg SeedByMapIndex true [LSave; LPrint false] true true.
+Definition cfg_no_flush := mkcfg SeedByMapIndex true [LSave; LPrint false] true true StripAll.
 Lemma no_flush_hard_kill_loses_manifest_l :
   exists seed es n u,
     let sched := seq_ops cfg_no_flush (delivered cfg_no_flush seed es wk0 disk0) in
@@ -34,7 +34,7 @@ Proof.
 Qed.
 
 (* manifest line printed before the file is saved *)
-Definition cfg_print_first := mkcfg SeedByMapIndex true [LPrint true; LSave] true true.
+Definition cfg_print_first := mkcfg SeedByMapIndex true [LPrint true; LSave] true true StripAll.
 Lemma print_before_save_lists_incomplete_l :
   exists seed es n k u,
     let d := crash_seq cfg_print_first seed es wk0 disk0 n k in
@@ -45,14 +45,14 @@ Qed.
 
 (* __getitem__ without torch.manual_seed: the feature depends on which process
    computed the item and on what it computed before *)
-Definition cfg_no_reseed := mkcfg SeedByMapIndex true [LSave; LPrint true] true false.
+Definition cfg_no_reseed := mkcfg SeedByMapIndex true [LSave; LPrint true] true false StripAll.
 Lemma no_reseed_workers_matter_l :
   exists seed es, delivered cfg_no_reseed seed es (wk_round_robin 0) disk0
                <> delivered cfg_no_reseed seed es (wk_round_robin 2) disk0.
 Proof. exists 7, es2. vm_compute. intros H. discriminate. Qed.
 
 (* manifest opened "w+": listed utterances are recomputed *)
-Definition cfg_truncate := mkcfg SeedByMapIndex true [LSave; LPrint true] false true.
+Definition cfg_truncate := mkcfg SeedByMapIndex true [LSave; LPrint true] false true StripAll.
 Lemma truncating_manifest_recomputes_l :
   exists seed es d n u,
     d = full_run cfg_truncate seed es wk0 disk0 /\ In u (d_manifest d) /\
@@ -64,7 +64,7 @@ Proof.
 Qed.
 
 (* manifest not consulted *)
-Definition cfg_no_filter := mkcfg SeedByMapIndex false [LSave; LPrint true] true true.
+Definition cfg_no_filter := mkcfg SeedByMapIndex false [LSave; LPrint true] true true StripAll.
 Lemma unfiltered_work_list_rewrites_l :
   exists seed es d n u,
     d = full_run cfg_no_filter seed es wk0 disk0 /\ In u (d_manifest d) /\
@@ -72,5 +72,44 @@ Lemma unfiltered_work_list_rewrites_l :
                      (seq_ops cfg_no_filter (delivered cfg_no_filter seed es wk0 d)) n)).
 Proof.
   exists 7, es2, (full_run cfg_no_filter 7 es2 wk0 disk0), 2%nat, 1.
+  split; [reflexivity|]. split; vm_compute; left; reflexivity.
+Qed.
+
+(* the CURRENT shape (line.strip() on manifest lines) with an id that ends in a
+   whitespace character other than " " (encoded as a negative id, see Model.v):
+   its manifest line is read back as a DIFFERENT id.  Map "a\\t", "a", "b";
+   the run is killed after the first utterance; the resumed run never computes
+   "a" (popped by the stripped line) and recomputes "a\\t". *)
+Definition cfg_strip_all := mkcfg SeedByMapIndex true [LSave; LPrint true] true true StripAll.
+Definition es_ws : list (Z * list Z) := [(-1, [10]); (1, [20]); (2, [30])].
+Lemma whitespace_id_resume_differs_l :
+  exists seed es h, NoDup (map fst es) /\
+    ~ same_dir (full_run cfg_strip_all seed es wk0 (after_hist cfg_strip_all seed es disk0 h))
+               (full_run cfg_strip_all seed es wk0 disk0).
+Proof.
+  exists 7, es_ws, [(5%nat, Hard, 0%nat)]. split.
+  - repeat constructor; simpl; intuition discriminate.
+  - intros H. specialize (H 1). vm_compute in H. discriminate.
+Qed.
+
+Lemma whitespace_id_recomputed_l :
+  exists seed es d n u,
+    d = full_run cfg_strip_all seed es wk0 disk0 /\ In u (d_manifest d) /\
+    In u (s_saved (crash_state cfg_strip_all d
+                     (seq_ops cfg_strip_all (delivered cfg_strip_all seed es wk0 d)) n)).
+Proof.
+  exists 7, [(-1, [10])], (full_run cfg_strip_all 7 [(-1, [10])] wk0 disk0), 2%nat, (-1).
+  split; [reflexivity|]. split; vm_compute; left; reflexivity.
+Qed.
+
+(* manifest lines looked up with their terminator: nothing is ever recognised *)
+Definition cfg_no_strip := mkcfg SeedByMapIndex true [LSave; LPrint true] true true NoStrip.
+Lemma unstripped_lines_recompute_l :
+  exists seed es d n u,
+    d = full_run cfg_no_strip seed es wk0 disk0 /\ In u (d_manifest d) /\
+    In u (s_saved (crash_state cfg_no_strip d
+                     (seq_ops cfg_no_strip (delivered cfg_no_strip seed es wk0 d)) n)).
+Proof.
+  exists 7, es2, (full_run cfg_no_strip 7 es2 wk0 disk0), 2%nat, 1.
   split; [reflexivity|]. split; vm_compute; left; reflexivity.
 Qed.
